@@ -81,6 +81,20 @@ deriving Repr, Inhabited
 
 abbrev Decoder := List UInt8 → Option (Nat × Instr)
 
+/-- `queries` after the instruction `i` decoded at `addr`: `queries.remove(&addr)`, then
+`if dst != addr && !instrs.contains_key(&addr) {queries.insert(dst)}` -/
+def nextQueries (i : Instr) (addr : Nat) (st : St) : List Nat :=
+  match getBranch i addr with
+  | some dst => if dst ≠ addr ∧ mcontains addr st.instrs = false then sinsert dst (sremove addr st.queries)
+      else sremove addr st.queries
+  | none => sremove addr st.queries
+
+/-- `branches.insert(dst)` -/
+def nextBranches (i : Instr) (addr : Nat) (st : St) : List Nat :=
+  match getBranch i addr with
+  | some dst => sinsert dst st.branches
+  | none => st.branches
+
 /-- the inner `while pos < buff.len()` loop -/
 def walk (decode : Decoder) (buf : List UInt8) : Nat → Nat → St → Except Panic St
   | 0, pos, st => if pos < buf.length then .error .fuel else .ok st
@@ -91,15 +105,9 @@ def walk (decode : Decoder) (buf : List UInt8) : Nat → Nat → St → Except P
       | some (n, i) =>
         if two32 ≤ BASE + pos then .error .overflow else
         let addr := BASE + pos
-        let q := sremove addr st.queries
-        let q := match getBranch i addr with
-          | some dst => if dst ≠ addr ∧ mcontains addr st.instrs = false then sinsert dst q else q
-          | none => q
-        let br := match getBranch i addr with
-          | some dst => sinsert dst st.branches
-          | none => st.branches
         if two32 ≤ addr + n then .error .overflow else
-        let st' : St := { queries := q, instrs := minsert ⟨addr, i, addr + n⟩ st.instrs, branches := br }
+        let st' : St := { queries := nextQueries i addr st, instrs := minsert ⟨addr, i, addr + n⟩ st.instrs,
+                          branches := nextBranches i addr st }
         if getReturns i then walk decode buf fuel (pos + n) st' else .ok st'
     else .ok st
 
